@@ -1,10 +1,15 @@
 #!/bin/bash
-# Builds the C15 model driver from the extracted code (coq/C15/Extract_C15.v -> c15_model.ml).
+# Builds the C15 model driver from the extracted code.  coq/C15/Extract_C15.v writes
+# ocaml/C15/_build/c15_model.ml{,i}; every compiled file stays in _build/ (git-ignored), nothing is
+# produced next to the sources.
 set -e
 cd "$(dirname "$0")"
-test -f c15_model.ml || { echo "c15_model.ml missing: build coq/C15/Extract_C15.vo first" >&2; exit 3; }
-if [ ! -x c15_driver ] || [ c15_model.ml -nt c15_driver ] || [ c15_driver.ml -nt c15_driver ]; then
-  ocamlfind ocamlopt -O2 -w -a -package str c15_model.mli c15_model.ml c15_driver.ml -o c15_driver.tmp 2>/dev/null \
-   || ocamlfind ocamlopt -w -a c15_model.mli c15_model.ml c15_driver.ml -o c15_driver.tmp
-  mv c15_driver.tmp c15_driver
+mkdir -p _build
+test -f _build/c15_model.ml || { echo "ocaml/C15/_build/c15_model.ml missing: build coq/C15/Extract_C15.vo first" >&2; exit 3; }
+if [ ! -x _build/c15_driver ] || [ _build/c15_model.ml -nt _build/c15_driver ] || [ c15_driver.ml -nt _build/c15_driver ]; then
+  cp c15_driver.ml _build/c15_driver.ml
+  ( cd _build
+    ocamlfind ocamlopt -O2 -w -a -package str c15_model.mli c15_model.ml c15_driver.ml -o c15_driver.tmp 2>/dev/null \
+     || ocamlfind ocamlopt -w -a c15_model.mli c15_model.ml c15_driver.ml -o c15_driver.tmp
+    mv c15_driver.tmp c15_driver )
 fi
